@@ -261,11 +261,43 @@ fn probe_f64(func: &str) -> bool {
     false
 }
 
+fn probe_f64_lsq(func: &str) -> bool {
+    // tall f64 system, Dual right-hand side: the normal equations A^T A x = A^T b must hold in value and derivative
+    let a = Array2::from_shape_vec((3, 2), vec![1.0, 2.0, 0.0, 1.0, -1.0, 3.0]).unwrap();
+    let b = Array1::from_vec(vec![Dual::new(1.0, vec!["r".to_string()]), Dual::new(2.0, vec!["s".to_string()]), Dual::new(-0.5, vec![])]);
+    let x = match std::panic::catch_unwind(std::panic::AssertUnwindSafe(|| fdsolve(&a.view(), &b.view(), true))) {
+        Ok(x) => x,
+        Err(_) => {
+            report("probe", func, "fdsolve(allow_lsq=true) on A=[[1,2],[0,1],[-1,3]] b=[1+dr,2+ds,-0.5]", "PANIC", "the least squares solution", false);
+            return true;
+        }
+    };
+    let vars: Vec<String> = vec!["r".to_string(), "s".to_string()];
+    for i in 0..2 {
+        // (A^T A x)_i - (A^T b)_i
+        let mut acc = Dual::new(0.0, vec![]);
+        for j in 0..2 {
+            let g: f64 = (0..3).map(|k| a[[k, i]] * a[[k, j]]).sum();
+            acc = &acc + &(&x[j] * g);
+        }
+        for k in 0..3 {
+            acc = &acc - &(&b[k] * a[[k, i]]);
+        }
+        let gr = acc.gradient1(vars.clone());
+        let worst = gr.iter().fold(acc.real().abs(), |m, v| m.max(v.abs()));
+        if !(worst < TOL) {
+            report("probe", func, &format!("fdsolve(allow_lsq=true) on A=[[1,2],[0,1],[-1,3]] b=[1+dr,2+ds,-0.5]: largest |value / derivative| of (A^T A x - A^T b)[{}]", i), &format!("{}", worst), "0", false);
+            return true;
+        }
+    }
+    false
+}
+
 pub fn probe(func: &str) -> bool {
     std::panic::set_hook(Box::new(|_| {}));
     match func {
         "dsolve21_" | "dsolve" | "dsolve_upper21_" | "dmul11_" | "dmul21_" | "dmul22_" | "argabsmax" | "row_swap" | "el_swap" => probe_mul(func) || probe_dual(func) || probe_dual2(func),
-        "fdsolve21_" | "fdsolve" | "fdsolve_upper21_" | "fdmul11_" | "fdmul21_" => probe_f64(func),
+        "fdsolve21_" | "fdsolve" | "fdsolve_upper21_" | "fdmul11_" | "fdmul21_" => probe_f64(func) || probe_f64_lsq(func),
         _ => false,
     }
 }
